@@ -154,6 +154,21 @@ def snap_transform(t):
     return [kind]
 
 
+def _transform_matrix(t):
+    """the matrix the transform's CURRENT parameters imply (t.matrix is only refreshed by save())"""
+    from collada import scene
+    kind = type(t).__name__
+    if kind == 'TranslateTransform':
+        return scene.TranslateTransform(t.x, t.y, t.z).matrix
+    if kind == 'ScaleTransform':
+        return scene.ScaleTransform(t.x, t.y, t.z).matrix
+    if kind == 'RotateTransform':
+        return scene.RotateTransform(t.x, t.y, t.z, t.angle).matrix
+    if kind == 'LookAtTransform':
+        return scene.LookAtTransform(t.eye, t.interest, t.upvector).matrix
+    return t.matrix
+
+
 def snap_matnode(m, doc):
     return dict(symbol=m.symbol, target=_ref(m.target, doc.materials),
                 inputs=[[i[0], i[1], None if i[2] is None else str(i[2])] for i in m.inputs])
@@ -171,7 +186,7 @@ def snap_node(n, doc, depth=0):
             # the matrix the transform list implies (Node.matrix itself is only refreshed by save())
             m = numpy.identity(4, dtype=numpy.float32)
             for t in n.transforms:
-                m = numpy.dot(m, t.matrix)
+                m = numpy.dot(m, _transform_matrix(t))
         else:
             m = n.matrix
         return dict(kind='Node', id=n.id, name=(n.id if n.name is None else n.name), transforms=[snap_transform(t) for t in n.transforms],
